@@ -1001,6 +1001,8 @@ func TestVerifC01(t *testing.T) {
 			c01Run(t, out, w, cs)
 		}
 	}
+	// 3. client-side API histories and registrar responses (zz_verif_c01_hist_test.go)
+	c01Histories(t, out, w, vlib.NewRand("C01-histories"))
 }
 
 // c01Fresh replaces the secret by one that comes out of the real client key exchange (crypto/rand
@@ -1086,6 +1088,8 @@ func c01Replay(t *testing.T, out *vlib.Out, w *c01World, path string) {
 	for _, line := range strings.Split(string(b), "\n") {
 		f := strings.Split(line, "|")
 		switch f[0] {
+		case "C01HIST":
+			c01HistReplay(t, out, w, line)
 		case "C01CASE":
 			if len(f) != 8 {
 				t.Fatalf("bad replay line %q", line)
